@@ -552,7 +552,9 @@ def parse(data):
 def to_jsonable(x):
     if isinstance(x, bytes):
         return {'__b64__': base64.b64encode(x).decode('ascii')}
-    if isinstance(x, (list, tuple)):
+    if isinstance(x, tuple):
+        return {'__tuple__': [to_jsonable(i) for i in x]}
+    if isinstance(x, list):
         return [to_jsonable(i) for i in x]
     if isinstance(x, dict):
         return {'__dict__': [[to_jsonable(k), to_jsonable(v)]
@@ -574,6 +576,8 @@ def from_jsonable(x):
                     for k, v in x['__dict__']}
         if '__set__' in x:
             return set(from_jsonable(i) for i in x['__set__'])
+        if '__tuple__' in x:
+            return tuple(from_jsonable(i) for i in x['__tuple__'])
         return {k: from_jsonable(v) for k, v in x.items()}
     return x
 
